@@ -1,9 +1,331 @@
 package main
 
-import "fmt"
+import (
+	"fmt"
+	"math"
+	"math/cmplx"
 
-// applyOp evaluates the scalar function named f on typed Go values with Go's own operators.
-// (Extended by the arithmetic / comparison / unary checks.)
+	"github.com/chewxy/math32"
+)
+
+type integer interface {
+	~int | ~int8 | ~int16 | ~int32 | ~int64 | ~uint | ~uint8 | ~uint16 | ~uint32 | ~uint64
+}
+type float interface{ ~float32 | ~float64 }
+type realnum interface{ integer | float }
+
+func b2t[T realnum](b bool) T {
+	if b {
+		return 1
+	}
+	return 0
+}
+
+// binReal evaluates the operators every ordered numeric type shares, with Go's own operators.
+func binReal[T realnum](f string, a, b T) (interface{}, bool) {
+	switch f {
+	case "add":
+		return a + b, true
+	case "sub":
+		return a - b, true
+	case "mul":
+		return a * b, true
+	case "gt":
+		return a > b, true
+	case "gte":
+		return a >= b, true
+	case "lt":
+		return a < b, true
+	case "lte":
+		return a <= b, true
+	case "eq":
+		return a == b, true
+	case "ne":
+		return a != b, true
+	case "gt.same":
+		return b2t[T](a > b), true
+	case "gte.same":
+		return b2t[T](a >= b), true
+	case "lt.same":
+		return b2t[T](a < b), true
+	case "lte.same":
+		return b2t[T](a <= b), true
+	case "eq.same":
+		return b2t[T](a == b), true
+	case "ne.same":
+		return b2t[T](a != b), true
+	case "minb":
+		if a < b {
+			return a, true
+		}
+		return b, true
+	case "maxb":
+		if a > b {
+			return a, true
+		}
+		return b, true
+	}
+	return nil, false
+}
+
+func binInt[T integer](f string, a, b T) (interface{}, error) {
+	if v, ok := binReal(f, a, b); ok {
+		return v, nil
+	}
+	switch f {
+	case "div", "div.vec":
+		if b == 0 {
+			return nil, fmt.Errorf("integer division by zero in the oracle (outside the specification's domain)")
+		}
+		return a / b, nil
+	case "mod":
+		if b == 0 {
+			return nil, fmt.Errorf("integer modulo by zero in the oracle (outside the specification's domain)")
+		}
+		return a % b, nil
+	}
+	return nil, fmt.Errorf("unknown integer function %q", f)
+}
+
+func binF64(f string, a, b float64) (interface{}, error) {
+	if v, ok := binReal(f, a, b); ok {
+		return v, nil
+	}
+	switch f {
+	case "div":
+		return a / b, nil
+	case "div.vec": // gorgonia.org/vecf64.Div: any zero divisor gives +Inf
+		if b == 0 {
+			return math.Inf(0), nil
+		}
+		return a / b, nil
+	case "mod":
+		return math.Mod(a, b), nil
+	case "pow":
+		return math.Pow(a, b), nil
+	}
+	return nil, fmt.Errorf("unknown float64 function %q", f)
+}
+
+func binF32(f string, a, b float32) (interface{}, error) {
+	if v, ok := binReal(f, a, b); ok {
+		return v, nil
+	}
+	switch f {
+	case "div":
+		return a / b, nil
+	case "div.vec":
+		if b == 0 {
+			return math32.Inf(0), nil
+		}
+		return a / b, nil
+	case "mod":
+		return math32.Mod(a, b), nil
+	case "pow":
+		return math32.Pow(a, b), nil
+	}
+	return nil, fmt.Errorf("unknown float32 function %q", f)
+}
+
+func binC128(f string, a, b complex128) (interface{}, error) {
+	switch f {
+	case "add":
+		return a + b, nil
+	case "sub":
+		return a - b, nil
+	case "mul":
+		return a * b, nil
+	case "div", "div.vec":
+		return a / b, nil
+	case "pow":
+		return cmplx.Pow(a, b), nil
+	case "eq":
+		return a == b, nil
+	case "ne":
+		return a != b, nil
+	case "eq.same":
+		if a == b {
+			return complex128(1), nil
+		}
+		return complex128(0), nil
+	case "ne.same":
+		if a != b {
+			return complex128(1), nil
+		}
+		return complex128(0), nil
+	}
+	return nil, fmt.Errorf("unknown complex128 function %q", f)
+}
+
+func binC64(f string, a, b complex64) (interface{}, error) {
+	switch f {
+	case "add":
+		return a + b, nil
+	case "sub":
+		return a - b, nil
+	case "mul":
+		return a * b, nil
+	case "div", "div.vec":
+		return a / b, nil
+	case "pow":
+		return complex64(cmplx.Pow(complex128(a), complex128(b))), nil
+	case "eq":
+		return a == b, nil
+	case "ne":
+		return a != b, nil
+	case "eq.same":
+		if a == b {
+			return complex64(1), nil
+		}
+		return complex64(0), nil
+	case "ne.same":
+		if a != b {
+			return complex64(1), nil
+		}
+		return complex64(0), nil
+	}
+	return nil, fmt.Errorf("unknown complex64 function %q", f)
+}
+
+func binStr(f string, a, b string) (interface{}, error) {
+	switch f {
+	case "add":
+		return a + b, nil
+	case "gt":
+		return a > b, nil
+	case "gte":
+		return a >= b, nil
+	case "lt":
+		return a < b, nil
+	case "lte":
+		return a <= b, nil
+	case "eq":
+		return a == b, nil
+	case "ne":
+		return a != b, nil
+	case "gt.same":
+		return strTF(a > b), nil
+	case "gte.same":
+		return strTF(a >= b), nil
+	case "lt.same":
+		return strTF(a < b), nil
+	case "lte.same":
+		return strTF(a <= b), nil
+	case "eq.same":
+		return strTF(a == b), nil
+	case "ne.same":
+		return strTF(a != b), nil
+	}
+	return nil, fmt.Errorf("unknown string function %q", f)
+}
+
+func strTF(b bool) string {
+	if b {
+		return "true"
+	}
+	return "false"
+}
+
+func binBool(f string, a, b bool) (interface{}, error) {
+	switch f {
+	case "eq", "eq.same":
+		return a == b, nil
+	case "ne", "ne.same":
+		return a != b, nil
+	}
+	return nil, fmt.Errorf("unknown bool function %q", f)
+}
+
+// applyOp evaluates the scalar function named f on typed Go values with Go's own operators and
+// maths routines (the same ones the kernels of that element type name).
 func applyOp(f string, dt *dtInfo, args []interface{}) (interface{}, error) {
-	return nil, fmt.Errorf("unknown scalar function %q", f)
+	for _, a := range args {
+		if m, ok := a.(errMark); ok {
+			return m, nil
+		}
+	}
+	if len(args) == 1 {
+		return applyUnary(f, args[0])
+	}
+	if len(args) == 3 {
+		return applyTernary(f, args[0], args[1], args[2])
+	}
+	if len(args) != 2 {
+		return nil, fmt.Errorf("bad arity for %q", f)
+	}
+	switch a := args[0].(type) {
+	case int:
+		if b, ok := args[1].(int); ok {
+			return binInt(f, a, b)
+		}
+	case int8:
+		if b, ok := args[1].(int8); ok {
+			return binInt(f, a, b)
+		}
+	case int16:
+		if b, ok := args[1].(int16); ok {
+			return binInt(f, a, b)
+		}
+	case int32:
+		if b, ok := args[1].(int32); ok {
+			return binInt(f, a, b)
+		}
+	case int64:
+		if b, ok := args[1].(int64); ok {
+			return binInt(f, a, b)
+		}
+	case uint:
+		if b, ok := args[1].(uint); ok {
+			return binInt(f, a, b)
+		}
+	case uint8:
+		if b, ok := args[1].(uint8); ok {
+			return binInt(f, a, b)
+		}
+	case uint16:
+		if b, ok := args[1].(uint16); ok {
+			return binInt(f, a, b)
+		}
+	case uint32:
+		if b, ok := args[1].(uint32); ok {
+			return binInt(f, a, b)
+		}
+	case uint64:
+		if b, ok := args[1].(uint64); ok {
+			return binInt(f, a, b)
+		}
+	case float32:
+		if b, ok := args[1].(float32); ok {
+			return binF32(f, a, b)
+		}
+	case float64:
+		if b, ok := args[1].(float64); ok {
+			return binF64(f, a, b)
+		}
+	case complex64:
+		if b, ok := args[1].(complex64); ok {
+			return binC64(f, a, b)
+		}
+	case complex128:
+		if b, ok := args[1].(complex128); ok {
+			return binC128(f, a, b)
+		}
+	case string:
+		if b, ok := args[1].(string); ok {
+			return binStr(f, a, b)
+		}
+	case bool:
+		if b, ok := args[1].(bool); ok {
+			return binBool(f, a, b)
+		}
+	}
+	return nil, fmt.Errorf("operands of %q have mismatched or unsupported types %T, %T", f, args[0], args[1])
+}
+
+func applyUnary(f string, a interface{}) (interface{}, error) {
+	return nil, fmt.Errorf("unknown unary function %q", f)
+}
+
+func applyTernary(f string, a, b, c interface{}) (interface{}, error) {
+	return nil, fmt.Errorf("unknown ternary function %q", f)
 }
